@@ -184,7 +184,7 @@ def system_eq_param_routing(kind):
                                          omega_boundary_fun_dict={k_: bf(k_) for k_ in uk},
                                          omega_boundary_condition_dict={k_: "dirichlet" for k_ in uk})
             if kind == "ODE":
-                loss = eqx.tree_at(lambda l: [l.u_constraints_dict[k_].initial_condition for k_ in uk], loss, [(t0, u0[i]) for i in range(2)])
+                loss = put_at(lambda l: [l.u_constraints_dict[k_].initial_condition for k_ in uk], loss, [(t0, u0[i]) for i in range(2)])
                 batch = ODEBatch(temporal_batch=pts_)
             elif kind == "statio":
                 batch = PDEStatioBatch(inside_batch=pts_, border_batch=bb)
